@@ -242,6 +242,7 @@ package rsl
 //@   ensures errorCause: err != nil ==> faults > old(faults) || (old(refSet)[Ref] && !pOK(cmsg(old(refTip)[Ref])))
 //@   assigns ghost faults, ghost refTip, ghost refSet, ghost objSet, e.Number, fresh(ReferenceEntry.*), fresh(AnnotationEntry.*), fresh(PropagationEntry.*), fresh(elems Hash)
 //@   ensures recorded: err == nil ==> recordedOK() && pKind(cmsg(refTip[Ref])) == 3 && pRef(cmsg(refTip[Ref])) == e.RefName && pTarget(cmsg(refTip[Ref])) == e.TargetID
+//@   ensures [C03,C18] recordedUpstream: err == nil ==> pUpRepo(cmsg(refTip[Ref])) == e.UpstreamRepository && pUpEntry(cmsg(refTip[Ref])) == e.UpstreamEntryID
 //@   ensures failureLeavesNoTrace: err != nil ==> storeUnchanged()
 //@   ensures faultReported: faults > old(faults) ==> err != nil
 //@   ensures faultsMonotone: faults >= old(faults)
@@ -251,6 +252,7 @@ package rsl
 //@   ensures errorCause: err != nil ==> faults > old(faults) || (old(refSet)[Ref] && !pOK(cmsg(old(refTip)[Ref])))
 //@   assigns ghost faults, ghost refTip, ghost refSet, ghost objSet, e.Number, fresh(ReferenceEntry.*), fresh(AnnotationEntry.*), fresh(PropagationEntry.*), fresh(elems Hash)
 //@   ensures recorded: err == nil ==> recordedOK() && pKind(cmsg(refTip[Ref])) == 3 && pRef(cmsg(refTip[Ref])) == e.RefName && pTarget(cmsg(refTip[Ref])) == e.TargetID
+//@   ensures [C03,C18] recordedUpstream: err == nil ==> pUpRepo(cmsg(refTip[Ref])) == e.UpstreamRepository && pUpEntry(cmsg(refTip[Ref])) == e.UpstreamEntryID
 //@   ensures failureLeavesNoTrace: err != nil ==> storeUnchanged()
 //@   ensures faultReported: faults > old(faults) ==> err != nil
 //@   ensures faultsMonotone: faults >= old(faults)
@@ -466,3 +468,65 @@ package rsl
 //@   assumed len(opts) == 1 && optKind(opts[0]) == 1 && err == nil ==> refSet[Ref] && hasRefEntry(refTip[Ref], optStr(opts[0])) && e != nil && entryAt(e, latestRefEntry(refTip[Ref], optStr(opts[0])))
 //@   assumed len(opts) == 1 && optKind(opts[0]) == 1 && errIs(err, ErrRSLEntryNotFound) && faults == old(faults) ==> !refSet[Ref] || !hasRefEntry(refTip[Ref], optStr(opts[0]))
 //@   assumed len(opts) == 1 && optKind(opts[0]) == 1 && (!refSet[Ref] || !hasRefEntry(refTip[Ref], optStr(opts[0]))) ==> err != nil
+
+//@ # ---- C17: the same recording functions with other writers acting between their storage steps ----
+//@ # Other writers only ever append entries to the log (objects are never removed, the RSL reference never goes away).
+//@ # numbersFollow(h): the entry at h carries the number after its parent's (1 for a first entry)
+//@ define numbersFollow(h Hash) bool = pOK(cmsg(h)) && (cnpar(h) == 0 ==> pNumber(cmsg(h)) == 1) && (cnpar(h) == 1 ==> pNumber(cmsg(h)) == pNumber(cmsg(cpar(h, 0))) + 1)
+//@ func [C17] concurrent (*ReferenceEntry).Commit -> (err)
+//@   requires e != nil && storer != nil
+//@   requires logTipWellFormed: refSet[Ref] ==> pOK(cmsg(refTip[Ref]))
+//@   interferes ghost refTip, ghost refSet, ghost objSet
+//@   rely logOnlyGrows: (old(refSet[Ref]) ==> refSet[Ref]) && (refSet[Ref] ==> pOK(cmsg(refTip[Ref]))) && (forall h Hash :: old(objSet[h]) ==> objSet[h])
+//@   assigns ghost faults, ghost refTip, ghost refSet, ghost objSet, e.Number, fresh(ReferenceEntry.*), fresh(AnnotationEntry.*), fresh(PropagationEntry.*), fresh(elems Hash)
+//@   # the entry this operation reports as recorded is the tip and is numbered after the parent it actually got
+//@   ensures numberFollowsParentUnderInterference: err == nil ==> refSet[Ref] && numbersFollow(refTip[Ref])
+
+//@ func [C17] concurrent (*ReferenceEntry).CommitUsingSpecificKey -> (err)
+//@   requires e != nil && storer != nil
+//@   requires logTipWellFormed: refSet[Ref] ==> pOK(cmsg(refTip[Ref]))
+//@   interferes ghost refTip, ghost refSet, ghost objSet
+//@   rely logOnlyGrows: (old(refSet[Ref]) ==> refSet[Ref]) && (refSet[Ref] ==> pOK(cmsg(refTip[Ref]))) && (forall h Hash :: old(objSet[h]) ==> objSet[h])
+//@   assigns ghost faults, ghost refTip, ghost refSet, ghost objSet, e.Number, fresh(ReferenceEntry.*), fresh(AnnotationEntry.*), fresh(PropagationEntry.*), fresh(elems Hash)
+//@   # the entry this operation reports as recorded is the tip and is numbered after the parent it actually got
+//@   ensures numberFollowsParentUnderInterference: err == nil ==> refSet[Ref] && numbersFollow(refTip[Ref])
+
+//@ func [C17] concurrent (*PropagationEntry).Commit -> (err)
+//@   requires e != nil && storer != nil
+//@   requires logTipWellFormed: refSet[Ref] ==> pOK(cmsg(refTip[Ref]))
+//@   interferes ghost refTip, ghost refSet, ghost objSet
+//@   rely logOnlyGrows: (old(refSet[Ref]) ==> refSet[Ref]) && (refSet[Ref] ==> pOK(cmsg(refTip[Ref]))) && (forall h Hash :: old(objSet[h]) ==> objSet[h])
+//@   assigns ghost faults, ghost refTip, ghost refSet, ghost objSet, e.Number, fresh(ReferenceEntry.*), fresh(AnnotationEntry.*), fresh(PropagationEntry.*), fresh(elems Hash)
+//@   # the entry this operation reports as recorded is the tip and is numbered after the parent it actually got
+//@   ensures numberFollowsParentUnderInterference: err == nil ==> refSet[Ref] && numbersFollow(refTip[Ref])
+
+//@ func [C17] concurrent (*PropagationEntry).CommitUsingSpecificKey -> (err)
+//@   requires e != nil && storer != nil
+//@   requires logTipWellFormed: refSet[Ref] ==> pOK(cmsg(refTip[Ref]))
+//@   interferes ghost refTip, ghost refSet, ghost objSet
+//@   rely logOnlyGrows: (old(refSet[Ref]) ==> refSet[Ref]) && (refSet[Ref] ==> pOK(cmsg(refTip[Ref]))) && (forall h Hash :: old(objSet[h]) ==> objSet[h])
+//@   assigns ghost faults, ghost refTip, ghost refSet, ghost objSet, e.Number, fresh(ReferenceEntry.*), fresh(AnnotationEntry.*), fresh(PropagationEntry.*), fresh(elems Hash)
+//@   # the entry this operation reports as recorded is the tip and is numbered after the parent it actually got
+//@   ensures numberFollowsParentUnderInterference: err == nil ==> refSet[Ref] && numbersFollow(refTip[Ref])
+
+//@ func [C17] concurrent (*AnnotationEntry).Commit -> (err)
+//@   requires a != nil && storer != nil
+//@   requires logTipWellFormed: refSet[Ref] ==> pOK(cmsg(refTip[Ref]))
+//@   interferes ghost refTip, ghost refSet, ghost objSet
+//@   rely logOnlyGrows: (old(refSet[Ref]) ==> refSet[Ref]) && (refSet[Ref] ==> pOK(cmsg(refTip[Ref]))) && (forall h Hash :: old(objSet[h]) ==> objSet[h])
+//@   assigns ghost faults, ghost refTip, ghost refSet, ghost objSet, a.Number, fresh(ReferenceEntry.*), fresh(AnnotationEntry.*), fresh(PropagationEntry.*), fresh(elems Hash)
+//@   # the entry this operation reports as recorded is the tip and is numbered after the parent it actually got
+//@   ensures numberFollowsParentUnderInterference: err == nil ==> refSet[Ref] && numbersFollow(refTip[Ref])
+//@   loop 1:
+//@     invariant tipOK: refSet[Ref] ==> pOK(cmsg(refTip[Ref]))
+
+//@ func [C17] concurrent (*AnnotationEntry).CommitUsingSpecificKey -> (err)
+//@   requires a != nil && storer != nil
+//@   requires logTipWellFormed: refSet[Ref] ==> pOK(cmsg(refTip[Ref]))
+//@   interferes ghost refTip, ghost refSet, ghost objSet
+//@   rely logOnlyGrows: (old(refSet[Ref]) ==> refSet[Ref]) && (refSet[Ref] ==> pOK(cmsg(refTip[Ref]))) && (forall h Hash :: old(objSet[h]) ==> objSet[h])
+//@   assigns ghost faults, ghost refTip, ghost refSet, ghost objSet, a.Number, fresh(ReferenceEntry.*), fresh(AnnotationEntry.*), fresh(PropagationEntry.*), fresh(elems Hash)
+//@   # the entry this operation reports as recorded is the tip and is numbered after the parent it actually got
+//@   ensures numberFollowsParentUnderInterference: err == nil ==> refSet[Ref] && numbersFollow(refTip[Ref])
+//@   loop 1:
+//@     invariant tipOK: refSet[Ref] ==> pOK(cmsg(refTip[Ref]))
